@@ -385,6 +385,28 @@ def dynOfSegment (ph : Val) : R Dyn := do
   return { strtab := st, offset := poff, empty := (← ph.getNat "p_filesz") == 0,
            tagsize := ← sizeofR f.S.Elf_Dyn }
 
+/-- `for x in it: if isinstance(x, K): return x` over a lazily built sequence -/
+def findFirst {α : Type} (get : Nat → R α) (p : α → Bool) : Nat → Nat → R (Option α)
+  | 0, _ => pure none
+  | k+1, i => do
+    let x ← get i
+    if p x then return some x else findFirst get p k (i + 1)
+
+/-- the `DynamicSection` object of the file: the first section of that class, in file order
+    (`for s in elffile.iter_sections(): if isinstance(s, DynamicSection)`) -/
+def dynamicSection : R (Option Dyn) := do
+  let n ← numSections env f.S f.data f.header
+  match ← findFirst (getSection env f.S f.data f.header f.shstr) (·.1 == "DynamicSection") n 0 with
+  | none => return none
+  | some (_, _, sh) => return some (← dynOfSection env f sh)
+
+/-- the `DynamicSegment` object of the file: the first segment of that class -/
+def dynamicSegment : R (Option Dyn) := do
+  let n ← numSegments env f.S f.data f.header f.shstr
+  match ← findFirst (getSegment env f.S f.data f.header f.shstr) (·.1 == "DynamicSegment") n 0 with
+  | none => return none
+  | some (_, ph) => return some (← dynOfSegment env f ph)
+
 end fromFile
 
 end PyElf.Model.Dynamic
